@@ -94,6 +94,7 @@ func ReplayCase(c *core.Ctx, scs map[string]*Scenario, raw json.RawMessage) bool
 		core.HarnessFailure("a scheduled case must be replayed by the scheduled binary")
 	}
 	EnableFiles(sc.Files...)
+	YieldsOnly = sc.YieldsOnly
 	x := Run(probe.Choices, true, sc.Body)
 	sig, what := "", ""
 	if x.Deadlock {
